@@ -1,6 +1,7 @@
 package server
 
 import (
+	"errors"
 	"math"
 	"os"
 	"strconv"
@@ -244,6 +245,19 @@ func (s *Server) aofshrink() {
 
 			// send a broadcast to all sleeping followers
 			s.fcond.Broadcast()
+
+			// A RENAME that ran while the collections were being scanned
+			// cannot be replayed on top of the partial scan (its source may
+			// have been skipped, its target already written). The live file
+			// is still complete, so give up on this rewrite.
+			for _, values := range s.shrinklog {
+				if len(values) > 0 {
+					switch strings.ToLower(values[0]) {
+					case "rename", "renamenx":
+						return errors.New("rename during shrink, not shrinking this time")
+					}
+				}
+			}
 
 			// flush the aof buffer
 			s.flushAOF(false)
